@@ -69,6 +69,7 @@ class Profile(object):
         self.wide_additions = True
         self.via_ref_floor = True
         self.ref_constraint_rate = 12
+        self.via_ref_floor_rate = 30
         for k, v in kw.items():
             if not hasattr(self, k):
                 raise AttributeError(k)
@@ -686,7 +687,7 @@ class _G(object):
             if P.tags and P.top_tags and self.chance(12) and t.kind != 'REF':
                 t.tag = self.rand_tag(spec, t, mod, set())
             self.avail.append((mod.name, name, asn.base_kind(spec, t, mod.name)))
-        if P.defaults and P.refs and P.via_ref_floor and self.chance(30):
+        if P.defaults and P.refs and P.via_ref_floor and self.chance(P.via_ref_floor_rate):
             self.defaults_via_ref(self.pick(self.modules), set(tnames))
         return Spec(self.modules)
 
@@ -723,10 +724,20 @@ class _G(object):
             members = []
             for nm, al in zip(names, aliases):
                 m = Member(nm, Ty('REF', ref=al))
+                target = self.lookup_avail(mod.name, al)
+                if (cname == 'Dw' and P.ref_constraints and P.constraints and target is not None
+                        and self.chance(45)):
+                    # a constraint written at the reference in one container only
+                    if target.kind == 'INTEGER' and target.rng is None:
+                        m.ty.rng = self.int_range(mod)
+                    elif (target.size is None and target.alpha is None and not target.named_bits and
+                          target.kind in ('OCTET STRING', 'BIT STRING', 'IA5String', 'UTF8String',
+                                          'NumericString', 'PrintableString')):
+                        m.ty.size = self.size_range(mod, maxb=12)
                 r = self.d(st.integers(0, 99))
-                if r < 60 and P.defaults:
+                if r < 45 and P.defaults:
                     self.try_default(m, mod)
-                elif r < 80 and P.optionals:
+                elif r < 60 and P.optionals:
                     m.optional = True
                 members.append(m)
             t = Ty(self.pick(['SEQUENCE', 'SEQUENCE', 'SET']) if 'SET' in P.constructed else 'SEQUENCE',
